@@ -28,8 +28,16 @@ EXPLANATION = (
     "create_immutable_directory) - is keyed by None, by <node>.get_writekey() or by such a pass-through "
     "parameter, the packers are never taken as values, and (in 6) the non-None value init_from_cap stores in "
     "_writekey is the writekey field of its cap.  Gates written as conditional expressions ('x if c else y') "
-    "count like if statements; the truth of writekey counts as 'writekey is not None'. "
-    "Undecided: that the salt keeps its 16-byte width (a truncated salt makes key streams collide),  AES/SHA-256 strength, that uri.from_string(readcap) yields a read-only cap object (C16), "
+    "count like if statements; the truth of writekey counts as 'writekey is not None'; "
+    "(9) every node class (wrappers such as blacklist.ProhibitedNode included): what get_readonly_uri() answers - the "
+    "string the packer stores in clear in the ro_uri slot and _create_readonly_node rebuilds the child from - is, on "
+    "every returning path, None, <cap>.get_readonly().to_string() (also through a get_readcap() that is itself "
+    "<cap>.get_readonly()), another node's own get_readonly_uri(), UnknownNode's ro slot (a slot get_write_uri() does "
+    "not return), or the node's own cap (get_uri() / <cap>.to_string()) only where the node is read-only: "
+    "is_readonly() constantly True for every class that inherits the method, or the return sits on an "
+    "'is_readonly()' edge; a class-body alias of the method is judged as the aliased method, re-binding it on an "
+    "object is refused. "
+    "Undecided: that the salt keeps its 16-byte width (a truncated salt makes key streams collide),  AES/SHA-256 strength, that uri.from_string(readcap) yields a read-only cap object and that <cap>.get_readonly() drops the writekey (C16.1), which caps UnknownNode.__init__ lets into its ro slot (C16.11/C16.12), what wrappers answer for is_readonly() (ProhibitedNode delegates; a wrong answer misreports but does not add authority), get_readcap() / MutableFileNode.get_readonly() where nothing but (9) uses them, "
     "CTR-mode length leak of the rw slot (ticket #925); what the HMAC trailer is computed over and in which "
     "argument order (any hash of key/cap material is treated as one-way); that writer and reader derive the same "
     "key (argument order of mutable_rwcap_key_hash, slice widths: C19.3 / C17.6); the ro./imm. prefix "
@@ -796,3 +804,191 @@ def run(ctx: Context):
                 r.violation(f, f.loc(nd), "%s takes the packer %s as a value: its key argument is out of sight"
                             % (short(f), g.name))
         r.count(len(packers))
+
+    # -- 9. what a node answers for its read-only slot ---------------------------
+    # _pack_normalized_children stores child.get_readonly_uri() in clear (C18.2 only decides that the packer asks
+    # for that method and for nothing stronger), and _create_readonly_node rebuilds the diminished child from it:
+    # the answer itself must carry no write authority, in every node class, wrappers included.
+    with ctx.rule("C18.9", "R6/R7", "every node class: get_readonly_uri() answers None, <cap>.get_readonly().to_string(), "
+                  "a wrapped node's own get_readonly_uri(), the ro slot of an UnknownNode, or the node's own cap only "
+                  "where the node is read-only (is_readonly() constantly True for every class that inherits the method, "
+                  "or on the edge 'is_readonly()'); the method is never aliased or re-bound", expected=6) as r:
+        RO_GATE = re.compile(r"^self(\.\w+(\(\))?)*\.is_readonly\(\)$")
+
+        def recv0(e, name):
+            """receiver of the argument-less method call e = <recv>.name(), else None"""
+            if isinstance(e, ast.Call) and isinstance(e.func, ast.Attribute) and e.func.attr == name \
+                    and not e.args and not e.keywords:
+                return e.func.value
+            return None
+
+        def is_self(e):
+            return isinstance(e, ast.Name) and e.id == "self"
+
+        def self_rooted(e):
+            """self.a, self.a.b, self.m(), self.a.m() ... (at least one step away from self)"""
+            steps = 0
+            while True:
+                if isinstance(e, ast.Attribute):
+                    e = e.value
+                elif isinstance(e, ast.Call) and isinstance(e.func, ast.Attribute) and not e.args and not e.keywords:
+                    e = e.func.value
+                else:
+                    break
+                steps += 1
+            return steps > 0 and is_self(e)
+
+        def always_returns(g):
+            return not find_path_avoiding(g.cfg(), lambda m: m.kind == "exit", gate_node=is_return)
+
+        def const_true_readonly(ci):
+            ro = ci.lookup("is_readonly")
+            if ro is None:
+                return False
+            rets = return_nodes(ro)
+            return bool(rets) and always_returns(ro) and all(
+                isinstance(n.ast.value, ast.Constant) and n.ast.value.value is True for n in rets)
+
+        def heirs(f):
+            """the classes whose instances answer with this implementation"""
+            return [c for c in [f.cls] + idx.subclasses(f.cls) if c.lookup(f.name) is f]
+
+        def parsed(fnorm, n, v):
+            s = fnorm.norm(n, v)
+            try:
+                return s, ast.parse(s, mode="eval").body
+            except SyntaxError:
+                return s, None
+
+        def gated_readonly(f, fnorm, n):
+            def known_ro(m, lab):
+                ft = fnorm.edge_fact(m, lab)
+                return bool(ft) and ft[0] == "truth" and RO_GATE.match(ft[1]) is not None
+            r.count(len(f.cfg().nodes))
+            return not find_path_avoiding(f.cfg(), lambda x: x is n, gate_edge=known_ro)
+
+        def readonly_here(classes, f, fnorm, n):
+            """the node is read-only where f returns at n: constantly for every class in `classes`, or by the path"""
+            return all(const_true_readonly(c) for c in classes) or gated_readonly(f, fnorm, n)
+
+        readcap_memo = {}
+
+        def readcap_diminishes(ci):
+            """every return of the class's get_readcap() is <x>.get_readonly(), a wrapped node's get_readcap(), or the
+            node's own cap object where the node is read-only"""
+            g = ci.lookup("get_readcap")
+            if g is None:
+                return False
+            key = (ci.qual, g.qual)
+            if key in readcap_memo:
+                return readcap_memo[key]
+            readcap_memo[key] = False
+            gn = FlowNorm(g)
+            rets = return_nodes(g)
+            ok = bool(rets) and always_returns(g)
+            for n in rets:
+                if not ok:
+                    break
+                e = parsed(gn, n, n.ast.value)[1] if n.ast.value is not None else None
+                if e is None:
+                    ok = False
+                elif recv0(e, "get_readonly") is not None:
+                    pass
+                elif recv0(e, "get_readcap") is not None and not is_self(recv0(e, "get_readcap")):
+                    pass
+                elif self_rooted(e) and readonly_here([ci], g, gn, n):
+                    pass
+                else:
+                    ok = False
+            readcap_memo[key] = ok
+            return ok
+
+        def write_slot(ci):
+            """attribute names X for which the class's get_write_uri() returns self.X"""
+            w = ci.lookup("get_write_uri")
+            out = set()
+            if w is not None:
+                wn = FlowNorm(w)
+                for n in return_nodes(w):
+                    if n.ast.value is not None:
+                        _s, e = parsed(wn, n, n.ast.value)
+                        if isinstance(e, ast.Attribute) and is_self(e.value):
+                            out.add(e.attr)
+            return out
+
+        UNKNOWN = "allmydata.unknown:UnknownNode"
+
+        def why_not(classes, f, fnorm, n, e, ro=False):
+            """None when the answer e (parsed normal form of what f returns at n, for instances of `classes`) carries
+            no write authority, else what is wrong with it; ro: an enclosing conditional expression established
+            is_readonly() for this operand"""
+            if e is None:
+                return "cannot be read as an expression"
+            if isinstance(e, ast.Constant) and (e.value is None or e.value == b""):
+                return None
+            if isinstance(e, ast.BoolOp) and isinstance(e.op, ast.Or):
+                for x in e.values:
+                    b = why_not(classes, f, fnorm, n, x, ro)
+                    if b is not None:
+                        return b
+                return None
+            if isinstance(e, ast.IfExp):
+                t, pol = e.test, True
+                while isinstance(t, ast.UnaryOp) and isinstance(t.op, ast.Not):
+                    t, pol = t.operand, not pol
+                known = RO_GATE.match(norm_plain(t)) is not None
+                return why_not(classes, f, fnorm, n, e.body, ro or (known and pol)) \
+                    or why_not(classes, f, fnorm, n, e.orelse, ro or (known and not pol))
+            rc = recv0(e, "to_string")
+            if rc is not None and recv0(rc, "get_readonly") is not None:
+                return None                                           # diminished by the cap class (C16.1)
+            if rc is not None and recv0(rc, "get_readcap") is not None and is_self(recv0(rc, "get_readcap")):
+                if all(readcap_diminishes(c) for c in classes):
+                    return None
+                return "goes through a get_readcap() that is not a diminished cap"
+            d = recv0(e, "get_readonly_uri")
+            if d is not None and not is_self(d):
+                return None                                           # another node's own answer (decided here too)
+            gu = recv0(e, "get_uri")
+            if (gu is not None and (is_self(gu) or self_rooted(gu))) or (rc is not None and self_rooted(rc)):
+                if ro or readonly_here(classes, f, fnorm, n):
+                    return None
+                return ("is the full-strength cap, and neither is is_readonly() constantly True for %s nor does the "
+                        "return sit on an 'is_readonly()' edge" % "/".join(c.name for c in classes))
+            if isinstance(e, ast.Attribute) and is_self(e.value):
+                # an opaque cap string kept as given: only the unknown node, whose ro slot C16.11/C16.12 decide
+                ws = [write_slot(c) for c in classes]
+                if all(c.qual == UNKNOWN for c in classes) and all(w and e.attr not in w for w in ws):
+                    return None
+                return "is a stored string whose strength is not established"
+            return "is not a cap diminished with get_readonly()"
+
+        TAIL = ("(the parent directory stores this string in clear in the entry's ro_uri slot, where every read-cap "
+                "holder reads it, and _create_readonly_node builds the 'read-only' child from it)")
+
+        def judge(classes, f, label):
+            fnorm = FlowNorm(f)
+            for n in return_nodes(f):
+                if n.ast.value is None:
+                    continue
+                s, e = parsed(fnorm, n, n.ast.value)
+                why = why_not(classes, f, fnorm, n, e)
+                if why is not None:
+                    r.violation(f, f.loc(n.ast), "%s answers %s: that %s %s" % (label, s, why, TAIL))
+
+        impls = [f for f in idx.by_name.get("get_readonly_uri", []) if f.cls is not None and f.params[:1] == ["self"]]
+        for f in impls:
+            r.site(f, None, "%s.get_readonly_uri" % f.cls.name)
+            judge(heirs(f), f, "%s.get_readonly_uri()" % f.cls.name)
+        # an alias in a class body (get_readonly_uri = get_uri): the aliased method is the implementation
+        for ci in idx.classes.values():
+            for ex in ci.attrs.get("get_readonly_uri", []):
+                tgt = ci.lookup(ex.id) if isinstance(ex, ast.Name) else None
+                if tgt is None:
+                    r.violation(ci.qual, None, "%s binds get_readonly_uri to %s: what it answers cannot be decided"
+                                % (ci.name, norm_plain(ex)))
+                elif tgt.name != "get_readonly_uri":
+                    r.site(tgt, None, "%s.get_readonly_uri = %s" % (ci.name, tgt.name))
+                    judge([ci] + idx.subclasses(ci), tgt, "%s.get_readonly_uri, bound to %s," % (ci.name, short(tgt)))
+        for (f2, nd) in get_callgraph(idx).attr_stores("get_readonly_uri"):
+            r.violation(f2, f2.loc(nd), "%s re-binds get_readonly_uri on an object" % short(f2))
